@@ -125,7 +125,7 @@ pub fn check_query(qc: &QueryCase, si: &SearchInstance, rep: &mut Report) {
         clean = false;
     }
     // Y2 first is least cost (state-independent costs, admissible underlying search)
-    if let (Some(first), true) = (res.routes.first(), underlying_admissible(alg, net.metric)) {
+    if let (Some(first), true) = (res.routes.first(), underlying_admissible(alg, net.metric) && matches!(world.access, crate::world::AccessCfg::None)) {
         if let Ok(Some(cost)) = independent_edge_costs(world, si) {
             let ref_min = dijkstra(net, &cost, &allowed, o, true)[d];
             let reported: f64 = match od {
@@ -226,7 +226,9 @@ fn case(tier: Tier, rng: &mut Rng, rep: &mut Report) {
     p.net.max_v = if tier.thorough { 40 } else { 18 };
     p.net.metric = rng.chance(0.7);
     p.net.p_blocks = 0.15;
-    p.allow_turn_delay = false;
+    // a quarter of the worlds charge turn delays: "least cost" (Y2) is then not decided here (the cost of an edge depends
+    // on the edge before it), every other clause is - in particular the accumulated state of every alternative
+    p.allow_turn_delay = rng.chance(0.25);
     p.mixed_units = false;
     p.surcharges = rng.chance(0.3);
     let world = gen_world(rng, &p);
